@@ -28,19 +28,16 @@ def compare(ctx, impl_lines, label):
         ntbc, raising = features(prog, hs)
         ctx.case(inp, ntbc >= 2 or raising)
         ctx.count(label + ":" + variant)
-        for k in "KGREZYPCL":
+        for k in "KGREZYPCLFV":
             if k in prog:
                 ctx.count("construct:" + k)
         if raising:
             ctx.count("raising-handler")
         replay = "c10 replay %s\nobserved %s\nexpected %s\nmodel    %s\n" % (inp, got, spec, model)
+        if variant == "coclose" and "Y" in prog and "P(" in prog:
+            ctx.count("coclose-with-pcall")
         if got != spec:
-            key = inp
-            if variant == "coclose" and model == got and "Y" in prog and "P(" in prog:
-                # the close-stack model (which compile_correct proves equal to the spec in every other
-                # situation) reproduces golua: the coroutine was closed while suspended inside a pcall
-                key = "coclose-in-pcall " + inp
-            ctx.violation(key, "golua's __close calls: %s; the manual prescribes: %s" % (got, spec), replay)
+            ctx.violation(inp, "golua's __close calls: %s; the manual prescribes: %s" % (got, spec), replay)
         if got != model:
             ctx.violation("levelB " + inp,
                           "golua (%s) and the close-stack model (%s) differ: Props/C10 is no longer about this code" % (got, model),
@@ -57,10 +54,10 @@ def compare(ctx, impl_lines, label):
 
 def run(ctx):
     ctx.rule = ("cases = (variant, program, handler behaviours): chains of up to 3 nested constructs (do-block, loop, pcall'd function, "
-                "called function) with to-be-closed declarations before/after every construct (<= 3), every exit kind (fall through, "
-                "break, goto out of k blocks, return, error, non-closable value) at every level, handlers that raise (always / only "
+                "called function, generic for with a closing value) with to-be-closed declarations before/after every construct (<= 3), every "
+                "exit kind (fall through, break, goto out of k blocks, return, return f(), error, non-closable value, yield+close) at every level, handlers that raise (always / only "
                 "without / only with an error in flight), enumerated (quick: depth <= 1 fully, seeded samples of depth 2 and 3; "
-                "thorough: depth <= 2 fully, 1 in 6 of depth 3), rendered under pcall, as a coroutine body, with trailing labels; plus seeded random wider programs "
+                "thorough: depth <= 2 fully, 1 in 20 of depth 3), rendered under pcall, as a coroutine body, with trailing labels; plus seeded random wider programs "
                 "incl. coroutines closed at a yield; non-trivial = >= 2 to-be-closed values or a raising handler; distinct by canonical text")
     ctx.assumptions = [
         "the Lua rendering of the mini-language (harness/cmd/c10 render) is faithful: do/for/pcall(function)/(function)()/goto/break/return/error",
@@ -79,7 +76,7 @@ def run(ctx):
     lines = out.split("\n")[:-1]
     compare(ctx, lines, "chains")
     ctx.extra["chain_lines"] = len(lines)
-    n = 8000 if ctx.tier == "quick" else 150000
+    n = 6000 if ctx.tier == "quick" else 100000
     rc, out, err = common.run_harness(h, ["random", str(n)])
     if rc != 0:
         raise common.BuildError("c10 harness failed: " + err[-2000:])
